@@ -31,8 +31,12 @@ ASSUMPTIONS = ["biases are small dyadic rationals (|x| < 2^16, denominators <= 2
                "floating point operation of the implementation is exact and comparison with the rational model is exact",
                "moved-from objects are only cleared or assigned to, as the standard library guarantees no more",
                "sanitizers see the header code compiled into the driver, not the code compiled into the Python extension (that half is covered by the child-interpreter stream and valgrind)"]
-PARTIAL = ["Expression / Constraint / ConstrainedQuadraticModel have no Coq model: for them the verdict is the native invariant "
-           "check (base adjacency invariant per expression, variables() duplicate-free, inside the parent, consistent with indices_, parent "
-           "back-pointer observable through vartype/bounds) + sanitizers + live assertions after every op",
+PARTIAL = ["Expression / Constraint / ConstrainedQuadraticModel: the cq.* ops of the driver have no Coq-side model in this check; for "
+           "them the verdict is the native invariant check (base adjacency invariant per expression, variables() duplicate-free, "
+           "inside the parent, consistent with indices_, parent back-pointer observable through vartype/bounds) + sanitizers + live "
+           "assertions after every op",
+           "BinaryQuadraticModel::change_vartype: Inv preservation is proved under the hypothesis that every variable of the object is "
+           "BINARY/SPIN (all_binspin); that this holds for every reachable BQM object is checked per case (vartypes compared after "
+           "every op) but not proved as an invariant of the step function",
            "use-after-free through weak_ptr, signed overflow and allocator behaviour are not expressible in the model; they are covered only by the sanitizer run",
            "Python boundary: a catalogue of malformed calls, not all argument values"]
